@@ -256,6 +256,12 @@ def stepLine (st : St) (line : String) : St × String :=
     | some cls, some id, some amt =>
       runOp st c { st.u with mclasses := addU st.u.mclasses cls, mids := addU st.u.mids id } (.mtBurn c a cls id amt)
     | _, _, _ => bad
+  | ["auth", c, sh, dh, ph] =>
+    match unhex sh, unhex dh, unhex ph with
+    | some sc, some d, some pt =>
+      let ok := Routing.authenticate (st.w c).core.rules sc d pt
+      (st, if ok then "res=ok" else "res=unauthorized")
+    | _, _, _ => bad
   | ["dump", c] => (st, s!"res=ok |  | {dump st.u (st.w c)}")
   | _ => bad
 
